@@ -165,13 +165,10 @@ StreamsManagerBase<MAX_STREAMS> {
     /// Signals all `Stream`s to end as soon as possible (making them reach their "out of elements" phase).\
     /// Any parked streams are awaken, so they may end as well.
     pub fn cancel_all_streams(&self) {
-        let used_streams = unsafe { &* self.used_streams.get() };
-        for stream_id in used_streams.iter() {
-            #[cfg(feature = "verif")] crate::verif::yield_point_r("sm.used.read");
-            if *stream_id == u32::MAX {
-                break
-            }
-            self.cancel_stream(*stream_id);
+        // goes through every possible id instead of the `used_streams` list: that list is rebuilt in place whenever a stream
+        // is dropped -- which is exactly what a just cancelled stream does -- and iterating it meanwhile could skip live streams
+        for stream_id in 0..MAX_STREAMS as u32 {
+            self.cancel_stream(stream_id);
         }
     }
 
